@@ -6,16 +6,19 @@
 package harness
 
 import (
+	"context"
 	"encoding/hex"
 	"encoding/json"
 	"fmt"
 	"math/rand/v2"
 	"os"
+	"os/exec"
 	"path/filepath"
 	"sort"
 	"strconv"
 	"strings"
 	"testing"
+	"time"
 )
 
 type Violation struct {
@@ -242,28 +245,121 @@ var families = map[string]func(*testing.T, *Rec){"exec": famExec}
 // interpreters by first token of an op line
 var interpreters = map[string]func() interface{ Exec(string) string }{}
 
-// famExec replays an op file (VERIF_OPS) on the implementation.
+// famExec replays an op file (VERIF_OPS) on the implementation. Scenario
+// families (a `cfg` line starts a scenario that runs in one bubble) go through
+// their scenario runner; answers are appended to VERIF_OUT/live.txt as they are
+// produced so that a crash leaves the answers so far behind.
 func famExec(t *testing.T, r *Rec) {
 	b, err := os.ReadFile(os.Getenv("VERIF_OPS"))
 	if err != nil {
 		t.Fatal(err)
 	}
-	live := map[string]interface{ Exec(string) string }{}
-	for _, line := range strings.Split(strings.TrimSpace(string(b)), "\n") {
-		f := strings.Fields(line)
+	os.MkdirAll(os.Getenv("VERIF_OUT"), 0o755)
+	live, _ := os.OpenFile(filepath.Join(os.Getenv("VERIF_OUT"), "live.txt"), os.O_CREATE|os.O_WRONLY|os.O_TRUNC, 0o644)
+	defer live.Close()
+	liveSink = func(out string) { fmt.Fprintln(live, out); live.Sync() }
+	defer func() { liveSink = nil }()
+	lines := strings.Split(strings.TrimSpace(string(b)), "\n")
+	interp := map[string]interface{ Exec(string) string }{}
+	for i := 0; i < len(lines); {
+		f := strings.Fields(lines[i])
 		if len(f) == 0 {
+			i++
 			continue
 		}
-		it, ok := live[f[0]]
+		fam := strings.TrimSuffix(f[0], "+")
+		if run, ok := scenarioRunners[fam]; ok {
+			j := i + 1
+			for j < len(lines) {
+				g := strings.Fields(lines[j])
+				if len(g) > 1 && strings.TrimSuffix(g[0], "+") == fam && g[1] != "cfg" {
+					j++
+				} else {
+					break
+				}
+			}
+			outs := run(t, lines[i:j])
+			for k, o := range outs {
+				r.Op(lines[i+k], o)
+			}
+			i = j
+			continue
+		}
+		it, ok := interp[f[0]]
 		if !ok {
 			mk, ok2 := interpreters[f[0]]
 			if !ok2 {
-				r.Op(line, "bad-op")
+				r.Op(lines[i], "bad-op")
+				liveSink("bad-op")
+				i++
 				continue
 			}
 			it = mk()
-			live[f[0]] = it
+			interp[f[0]] = it
 		}
-		r.Op(line, it.Exec(line))
+		o := it.Exec(lines[i])
+		liveSink(o)
+		r.Op(lines[i], o)
+		i++
 	}
+}
+
+// liveSink, when set, receives every scenario answer as soon as it exists.
+var liveSink func(string)
+
+// runIsolated runs one scenario in a child process under a wall-clock limit:
+// a Go panic in a library goroutine or a hang (a goroutine blocked on a mutex is
+// not a durable block for synctest) must not take the checker down. Answers the
+// child produced before dying are kept; the op it died in answers "fault:<what>".
+func runIsolated(lines []string, limit time.Duration) (outs []string, fault string) {
+	dir, err := os.MkdirTemp("", "verif-iso")
+	if err != nil {
+		panic(err)
+	}
+	defer os.RemoveAll(dir)
+	opsFile := filepath.Join(dir, "ops.txt")
+	os.WriteFile(opsFile, []byte(strings.Join(lines, "\n")+"\n"), 0o644)
+	ctx, cancel := context.WithTimeout(context.Background(), limit)
+	defer cancel()
+	cmd := exec.CommandContext(ctx, os.Args[0], "-test.run", "TestFamily")
+	cmd.Env = append(os.Environ(), "VERIF_FAMILY=exec", "VERIF_OPS="+opsFile, "VERIF_OUT="+dir, "GOMAXPROCS=1")
+	var stderr strings.Builder
+	cmd.Stderr = &stderr
+	cmd.Stdout = &stderr
+	runErr := cmd.Run()
+	if b, err := os.ReadFile(filepath.Join(dir, "live.txt")); err == nil && len(b) > 0 {
+		outs = strings.Split(strings.TrimRight(string(b), "\n"), "\n")
+	}
+	switch {
+	case ctx.Err() != nil:
+		fault = "hang"
+	case runErr != nil:
+		fault = "panic"
+		for _, l := range strings.Split(stderr.String(), "\n") {
+			if strings.HasPrefix(l, "panic:") || strings.HasPrefix(l, "fatal error:") {
+				fault = "panic:" + strings.ReplaceAll(strings.TrimSpace(l), " ", "_")
+				if len(fault) > 120 {
+					fault = fault[:120]
+				}
+				break
+			}
+		}
+	}
+	if fault != "" {
+		outs = append(outs, "fault:"+fault)
+	}
+	for len(outs) < len(lines) {
+		outs = append(outs, "-")
+	}
+	return outs[:len(lines)], fault
+}
+
+func jsonUnmarshal(b []byte, v any) error { return json.Unmarshal(b, v) }
+func sortStrings(xs []string)            { sort.Strings(xs) }
+
+func appendLive(outs []string, o string) []string {
+	if liveSink != nil {
+		liveSink(o)
+	}
+	return append(outs, o)
 }
